@@ -230,10 +230,20 @@ func (p *nodeInterp) LoadExpr(node ast.Node) string {
 	if start == token.NoPos {
 		return ""
 	}
-	pos := p.fset.Position(start)
+	pos := p.fset.PositionFor(start, false) // the real file, not the one a //line directive names
 	f := p.files[pos.Filename]
-	n := int(node.End() - start)
-	return string(f.Code[pos.Offset : pos.Offset+n])
+	if f == nil { // e.g. a Go file of the package: its text is not kept
+		return ""
+	}
+	// nodes of a partially parsed file can reach beyond the text
+	from, to := pos.Offset, pos.Offset+int(node.End()-start)
+	if to > len(f.Code) {
+		to = len(f.Code)
+	}
+	if from < 0 || from > to {
+		return ""
+	}
+	return string(f.Code[from:to])
 }
 
 type loader interface {
